@@ -29,6 +29,21 @@ LIBMODS = ("authentication", "signing", "root_signing", "common", "metadata_cons
 def run(ctx):
     eng, prog = ctx.eng, ctx.prog
     ctx.assume("A1", "A8", "determinism, injectivity, parse/serialize fixpoint and float/surrogate rendering are properties of CPython's json module given this configuration (not decided here)")
+    sm, site = serializer_config(ctx)
+
+    # ---- R2 pure function of the value
+    fx = Effects(eng)
+    amb = fx.ambient(sm.fi)
+    pw = fx.param_writes(sm.fi)
+    ctx.ob("R2", "no-ambient-no-write", site.loc(), "canonserialize %s" % ("reads no ambient state and writes nothing" if not amb and not pw else "is not a function of its argument alone: " + ", ".join([a[0] for a in amb] + ["writes " + w[0] for w in pw])), not amb and not pw)
+
+    # ---- R3 single serializer: message sinks
+    _sinks(ctx)
+
+
+def serializer_config(ctx):
+    """R1: the one serializer is json.dumps(obj, <published configuration>).encode('utf-8')"""
+    eng = ctx.eng
     sm = eng.walk("common.canonserialize")
     site = fn_site(eng, sm)
     obj = P(sm.params[0])
@@ -64,15 +79,7 @@ def run(ctx):
         extra = [n for n, _v in dumps_call[3] if n not in WANT and n != "separators"]
         ctx.ob("R1", "dumps-config|no-other-keywords", site.loc(), "no other json.dumps keyword is given" if not extra else "unexpected json.dumps keywords: %s" % extra, not extra)
         ctx.floor("R1.keywords", 8)
-
-    # ---- R2 pure function of the value
-    fx = Effects(eng)
-    amb = fx.ambient(sm.fi)
-    pw = fx.param_writes(sm.fi)
-    ctx.ob("R2", "no-ambient-no-write", site.loc(), "canonserialize %s" % ("reads no ambient state and writes nothing" if not amb and not pw else "is not a function of its argument alone: " + ", ".join([a[0] for a in amb] + ["writes " + w[0] for w in pw])), not amb and not pw)
-
-    # ---- R3 single serializer: message sinks
-    _sinks(ctx)
+    return sm, site
 
 
 def _is_canon(eng, t):
